@@ -72,6 +72,12 @@ def specials():
         out.append(('define-args-body-%s' % cname, '#define F(a) a%s+ a\nq = F(2);\nz = 1;\n' % ch))
         out.append(('define-params-%s' % cname, '#define F(a,%sb) a + b\nq = F(1,2);\nz = 1;\n' % ch))
         out.append(('code-%s' % cname, 'x = 1;%sy = 2;\n' % ch))
+    # number-like fragments in every value position of the config and SQF grammars (a lexer that accepts a fragment hands it to stod/stof)
+    for k, h in enumerate(['.', '-.', '+.', '..', '1.', '.5', '-', '+', '1e', '1e+', '1e-', '0x', '$', '1.2.3', '1e999', '-1e999', '0x1G', '5.', 'e5', '.e1', '-.e1', '1..2', '-']):
+        out.append(('number-fragment:cfg-value:%d' % k, 'class A { x = %s; y = 2; };\n' % h))
+        out.append(('number-fragment:cfg-array:%d' % k, 'class A { a[] = {0, %s, 1}; y = 2; };\n' % h))
+        out.append(('number-fragment:sqf-value:%d' % k, 'x = %s;\ny = 2;\n' % h))
+        out.append(('number-fragment:sqf-array:%d' % k, 'x = [0, %s, 1];\ny = 2;\n' % h))
     out.append(('callable-name-at-argument-end', '#define T(A) A A\n#define Q(A) A\nT(s-Q)\nT(Q)\nT(1, Q)\n'))
     out.append(('define-unterminated-string', '#define A "\nx = A;\n'))
     out.append(('define-unterminated-string-args', '#define A(x) x + " 1\ny = A(2);\nz = 3;\n'))
